@@ -4,7 +4,7 @@
    that share records); non-vacuity of the hypotheses of Props/C17Share.v. *)
 From Coq Require Import List ZArith NArith Bool String Lia.
 Import ListNotations.
-From ACH Require Import Server ServerFacts ServerLib ServerShare ServerShareFacts ServerShareStable ShareTable ServerShareGen.
+From ACH Require Import Server ServerFacts ServerLib ServerShare ServerShareFacts ServerShareStable ServerShareDerived ShareTable ServerShareGen.
 From ACH Require Offsets.
 
 (* ---------------------------------------------------------------- the object flow of the source *)
@@ -233,3 +233,11 @@ Proof. vm_compute. reflexivity. Qed.
 (* a file with a mixed IAT batch is not stable either *)
 Lemma iat_mixed_not_stable : all_stable (srun sinit [SCreate (Some 1%N) None pf_iat]) = false.
 Proof. vm_compute. reflexivity. Qed.
+
+(* the hypotheses of C17_flatten_result_stable hold of the flatten of the file whose entries do NOT
+   carry the ODFI (unstable, changed by the flatten): what the flatten stores is stable *)
+Lemma flatten_of_unstable_gives_stable :
+  wf_flat_result (srun sinit h_untraced) 0%N [g_all] = true /\
+  file_stable (srun sinit h_untraced) 0%N = false /\
+  file_stable (srun sinit (h_untraced ++ [SFlatten c1 (FlatOk [g_all] true)])) 1%N = true.
+Proof. vm_compute. repeat split. Qed.
